@@ -13,7 +13,8 @@ RULE = ("grid cases: files of 56..400 bytes around segment boundaries, 1<=k<=N<=
         "encodings of the same key, servers whose read answers change (fault plan on the n-th read), each read in full or by range "
         "through a recording consumer, once or twice on the same node; files uploaded with a large max segment size (blocks of 262145..600000 "
         "bytes, k = 1..3) with one byte flipped at positions over the whole block incl. every 256 KiB boundary and the last bytes; one, several or all shares cut to 0..37 bytes of share data (shorter than "
-        "the offset table) where the read must finish or fail; non-trivial = the scenario damaged at least one share that the "
+        "the offset table) where the read must finish or fail; multi-segment files damaged only in a later segment of most shares, read whole and "
+        "again on the same node (must finish or fail); non-trivial = the scenario damaged at least one share that the "
         "download touched; distinct = distinct (file parameters, scenario, damage)")
 META = {
     "title": "Immutable downloads never return wrong bytes",
@@ -573,7 +574,7 @@ def classification_file(ctx, fi, jobs, infos):
         data = bytes(r.getrandbits(8) for _ in range(size))
         seed = r.getrandbits(30)
         name = "F%d" % fi
-        with G.Grid(num_servers=n, k=k, n=n, happy=1, max_segment_size=mss, seed=seed, timeout=30) as g:
+        with G.Grid(num_servers=n, k=k, n=n, happy=1, max_segment_size=mss, seed=seed, timeout=180) as g:
             cap, shares, raws, gen = upload_file(g, data)
             for p in gen.problems:
                 ctx.mismatch("uploaded-share-differs-from-recomputed-trees", p, case={"k": k, "n": n, "size": size, "max_segment_size": mss},
@@ -622,7 +623,7 @@ def classification_file(ctx, fi, jobs, infos):
                 set_payload(g, target, raws[target.shnum], newp)
                 sz = r.choice([None, None, None, 1, gen.segsize, gen.segsize + 1, size - 1])
                 node = fresh_node(g, cap)
-                status, err, chunks = read_through(g, node, 0, sz, timeout=(1.0 if below_header else 20))
+                status, err, chunks = read_through(g, node, 0, sz, timeout=90)
                 case = {"file": fi, "k": k, "n": n, "size": size, "max_segment_size": mss, "seed": seed, "target_share": target.shnum,
                         "kept_shares": [s.shnum for s in keep], "mutation": label, "read_size": sz, "data": data.hex()}
                 judge(ctx, data, 0, sz, status, err, chunks, case, "single-field:" + kind)
@@ -801,7 +802,7 @@ def adversarial_case(ctx, i):
         n = r.choice([x for x in [k, k + 1, k + 2, 2 * k + 1] if k <= x <= 10])
         nservers = r.choice([3, 4, 5, 6])
     case = {"i": i, "k": k, "n": n, "size": size, "max_segment_size": mss, "servers": nservers, "seed": seed, "scenario": scenario, "data": data.hex()}
-    with G.Grid(num_servers=nservers, k=k, n=n, happy=1, max_segment_size=mss, seed=seed, timeout=30) as g:
+    with G.Grid(num_servers=nservers, k=k, n=n, happy=1, max_segment_size=mss, seed=seed, timeout=180) as g:
         cap = g.run(g.upload(data, convergence=b"c02"))
         shares = g.find_shares(cap)
         raws = {(s.server, s.shnum): g.read_share(s) for s in shares}
@@ -924,7 +925,7 @@ def large_block_case(ctx, i):
     seed = r.getrandbits(30)
     base = {"i": i, "large": True, "k": k, "n": n, "size": size, "max_segment_size": mss, "seed": seed}
     results = []
-    with G.Grid(num_servers=n, k=k, n=n, happy=1, max_segment_size=mss, seed=seed, timeout=60) as g:
+    with G.Grid(num_servers=n, k=k, n=n, happy=1, max_segment_size=mss, seed=seed, timeout=180) as g:
         cap = g.run(g.upload(data, convergence=b"c02L"))
         shares = g.find_shares(cap)
         keep = sorted(r.sample(shares, k), key=lambda s: s.shnum) if r.random() < 0.5 else [s for s in shares if s.shnum < k]
@@ -978,7 +979,7 @@ def large_blocks(ctx):
 def short_truncation_case(ctx, i):
     """One share (the others intact), several shares, or all shares cut down to 0..37 bytes of share data: the read
     must finish -- with the uploaded bytes or with an error.  Here the grid's verdict `hung` (nothing left to run, the
-    Deferred never fired) or a 20 s timeout on a read that normally takes milliseconds counts as a violation."""
+    Deferred never fired) or a 90 s timeout on a read that normally takes milliseconds counts as a violation."""
     from core import grid as G
     r = ctx.rng("short", i)
     k = r.choice([1, 2, 3])
@@ -990,7 +991,7 @@ def short_truncation_case(ctx, i):
     seed = r.getrandbits(30)
     base = {"i": i, "short": True, "k": k, "n": n, "size": size, "max_segment_size": mss, "servers": nservers, "seed": seed}
     outcomes = []
-    with G.Grid(num_servers=nservers, k=k, n=n, happy=1, max_segment_size=mss, seed=seed, timeout=30) as g:
+    with G.Grid(num_servers=nservers, k=k, n=n, happy=1, max_segment_size=mss, seed=seed, timeout=180) as g:
         cap = g.run(g.upload(data, convergence=b"c02s"))
         shares = g.find_shares(cap)
         raws = {(s.server, s.shnum): g.read_share(s) for s in shares}
@@ -1010,7 +1011,7 @@ def short_truncation_case(ctx, i):
                 cut[s.shnum] = c
                 g.write_share(s, join_container(head, pay[:c], leases if r.random() < 0.8 else b""))
             off, sz = r.choice([(0, None), (0, None), random_ranges(r, size, mss)])
-            status, err, chunks = read_through(g, fresh_node(g, cap), off, sz, timeout=20)
+            status, err, chunks = read_through(g, fresh_node(g, cap), off, sz, timeout=90)
             case = dict(base, truncated={str(a): b for a, b in sorted(cut.items())}, which=which, read=[off, sz])
             judge(ctx, data, off, sz, status, err, chunks, case, "short-share")
             if status in ("hung", "timeout"):
@@ -1032,11 +1033,73 @@ def short_truncations(ctx):
         short_truncation_case(ctx, i)
 
 
+# ---- damage that only shows in a later segment -------------------------------------------------------------------------
+def later_segment_case(ctx, i):
+    """A file of several segments; one byte flipped in the block of a LATER segment in most shares, so that fewer than
+    k shares are good for that segment (sometimes exactly k: then the read must succeed).  (A) a whole-file read,
+    (B) further reads on the SAME node object.  Every read must finish -- exact bytes, or an error after a correct
+    prefix; `hung` or a timeout is a violation."""
+    from core import grid as G
+    r = ctx.rng("later", i)
+    k = r.choice([1, 2, 3])
+    n = r.choice([k + 1, k + 2, 2 * k + 1, 10])
+    mss = r.choice([16, 24, 40])
+    nseg_want = r.choice([3, 4, 6])
+    size = max(56, mss * nseg_want - r.randrange(0, mss // 2))
+    data = bytes(r.getrandbits(8) for _ in range(size))
+    nservers = r.choice([2, 2, 3, n, n + 1])
+    seed = r.getrandbits(30)
+    base = {"i": i, "later": True, "k": k, "n": n, "size": size, "max_segment_size": mss, "servers": nservers, "seed": seed}
+    outcomes = []
+    with G.Grid(num_servers=nservers, k=k, n=n, happy=1, max_segment_size=mss, seed=seed, timeout=180) as g:
+        cap = g.run(g.upload(data, convergence=b"c02l"))
+        shares = g.find_shares(cap)
+        segsize = div_ceil(min(size, mss), k) * k
+        sz = sizes(size, k, segsize)
+        nseg = sz["num_segments"]
+        seg = r.randrange(1, nseg) if nseg > 1 else 0
+        spare = r.choice([k - 1, k - 1, k - 1, 0, k])          # shares left good for that segment
+        hit = r.sample(shares, max(0, len(shares) - spare))
+        for s in hit:
+            head, pay, leases = split_container(g.read_share(s))
+            ver, fs, offs = parse_header(pay)
+            bl = sz["tail_block_size"] if seg == nseg - 1 else sz["block_size"]
+            b = bytearray(pay)
+            b[offs["data"] + seg * sz["block_size"] + r.randrange(bl)] ^= r.choice([1, 0x80, 0xff])
+            g.write_share(s, join_container(head, bytes(b), leases))
+        base.update(damaged_segment=seg, segments=nseg, damaged_shares=sorted(s.shnum for s in hit), good_for_segment=len(shares) - len(hit))
+        node = fresh_node(g, cap)
+        reads = [(0, None)]
+        for _ in range(r.choice([1, 2, 3])):
+            reads.append(r.choice([(0, None), (seg * segsize, None), (seg * segsize, 1), (0, seg * segsize), random_ranges(r, size, segsize)]))
+        for j, (off, ln) in enumerate(reads):
+            status, err, chunks = read_through(g, node, off, ln, timeout=90)
+            case = dict(base, read=[off, ln], read_number_on_node=j + 1)
+            judge(ctx, data, off, ln, status, err, chunks, case, "later-segment")
+            if status in ("hung", "timeout"):
+                ctx.oracle_fail("read-never-finishes:later-segment-damage",
+                                "read #%d on the node, read(%d, %r), neither completed nor failed (%s) after delivering %d bytes: segment %d of %d is damaged in %d of %d shares (k=%d, %d servers)" % (
+                                    j + 1, off, ln, status, sum(len(c) for c in chunks), seg, nseg, len(hit), len(shares), k, nservers), case=case)
+            end = min(size, off + ln) if ln is not None else size
+            touches = off < min(size, (seg + 1) * segsize) and end > seg * segsize
+            if status == "error" and (not touches or len(shares) - len(hit) >= k) and ln != 0:
+                ctx.count("later-segment:error-although-enough-good-shares")
+            outcomes.append(err or status)
+            ctx.case((i, j, off, ln, tuple(base["damaged_shares"])), kind="later-segment:read%d:%s" % (min(j + 1, 2), "ok" if status == "ok" else ("refused" if status == "error" else status)))
+    return {"outcomes": outcomes}
+
+
+def later_segments(ctx):
+    for i in range(ctx.n(16, 150)):
+        later_segment_case(ctx, i)
+
+
 def run(ctx):
     classification(ctx)
     adversarial(ctx)
     large_blocks(ctx)
     short_truncations(ctx)
+    later_segments(ctx)
 
 
 def replay(ctx, record):
@@ -1046,6 +1109,8 @@ def replay(ctx, record):
         return large_block_case(ctx, case["i"])
     if case.get("short"):
         return short_truncation_case(ctx, case["i"])
+    if case.get("later"):
+        return later_segment_case(ctx, case["i"])
     if "scenario" in case and "i" in case:
         return adversarial_case(ctx, case["i"])
     if "file" in case:
